@@ -36,4 +36,9 @@ def plan(plan, tier, seed):
                          "rejection of mismatched block heights/widths and of mixed kinds is done in MatrixHorzCat/MatrixVertCat::compile and matrix()/matrix_row() (evaluator code): not decided",
                          "HorizontalConcatenateRDN is given the positions the dispatch computes; its bytecode factory `new` computes different positions (argument index) — see DESIGN findings"]
     plan.undecided_clauses += ["C11: shape/kind rejection, the (nargs, rows, columns) routing, fixed-size kernels (not built in this configuration)"]
-    plan.level = "model_checking"
+    try:
+        from units import vC11
+        vC11.add_units(plan, "C11")
+    except Exception as e:
+        plan.anchor_errors.append(("C11.verus.*", repr(e)))
+    plan.level = "proof"
